@@ -71,3 +71,12 @@ package sessions
 //@        (exists m int :: {old(s.topics[m])} 0 <= m && m <= rangeindex && string(old(s.topics[m])) == string(new))
 //@     && (forall k int :: {s.topics[k]} {old(s.topics[k])} 0 <= k && k < len(old(s.topics)) ==>
 //@           s.topics[k] == (if string(old(s.topics[k])) == string(new) then old(s.topics[len(s.topics)]) else old(s.topics[k])))
+
+// ---- connection deadline (C11) ----------------------------------------------------------------
+//@ func (transport.TimeoutReadWriteCloser).SetDeadline(c transport.TimeoutReadWriteCloser, t time.Time) (err error)
+//@   modifies #deadlineSets, #lastDeadlineConn
+//@   ensures #deadlineSets == old(#deadlineSets) + 1 && #lastDeadlineConn == c
+//@ func (*Session).ExtendDeadline()
+//@   requires s != nil && s.conn != nil
+//@   ensures #deadlineSets == old(#deadlineSets) + 1 && #lastDeadlineConn == s.conn
+//@   modifies #deadlineSets, #lastDeadlineConn
